@@ -87,9 +87,9 @@ type prepLookup struct {
 	call   *ast.CallExpr // the call in prepareStatement
 	keyArg ast.Expr      // the key it is given
 	body   *ast.BlockStmt
-	node   ast.Node       // the literal / the method declaration
-	keyIn  types.Object   // the key inside body (captured variable or parameter)
-	method *FuncInfo      // nil for the callback form
+	node   ast.Node     // the literal / the method declaration
+	keyIn  types.Object // the key inside body (captured variable or parameter)
+	method *FuncInfo    // nil for the callback form
 }
 
 func prepareParts(p *Program, r *Report) (fi *FuncInfo, keyObj types.Object, cb *prepLookup, gor *prepGoroutine) {
